@@ -78,6 +78,29 @@ def special(cases, seed, k):
     return out
 
 
+def after_failure(cases, seed, k):
+    """An honest case preceded, in the same schedule (same process), by a combination with a substituted partial - in
+    particular one that makes ThresholdAggregate FAIL (junk): the honest combination that follows must be unaffected."""
+    r = vlib.rng(seed, "c08after")
+    honest = [c for c in cases if any(e["ev"] == "Combine" and e["sub"]["kind"] == "none" for e in c)]
+    out = []
+    for c in r.sample(honest, min(k, len(honest))):
+        split = next(e for e in c if e["ev"] == "Split")
+        n, t = split["n"], split["t"]
+        steps = []
+        for e in c:
+            if e["ev"] == "Combine":
+                for _ in range(r.choice([1, 1, 2])):
+                    S1 = sorted(r.sample(range(1, n + 1), r.randint(t, n)))
+                    pos = r.choice(S1)
+                    kind = r.choice(["junk", "junk", "junk", "share", "msg"])
+                    sub = {"kind": kind, "pos": pos, "arg": r.choice([0, 1]) if kind == "junk" else 0}
+                    steps.append({"ev": "Combine", "S": S1, "sub": sub})
+            steps.append(dict(e))
+        out.append(decorate(steps, seeded(r), r.choice(["csprng", "seeded"]), seeded(r)))
+    return out
+
+
 def sampled(seed, k):
     """n = 8..10: seeded sample of the same case space"""
     r = vlib.rng(seed, "c08big")
@@ -87,7 +110,7 @@ def sampled(seed, k):
         t = r.randint(2, n)
         size = r.choice([t, t, min(n, t + 1), r.randint(t, n), n])
         S = sorted(r.sample(range(1, n + 1), size))
-        kind = r.choice(["none", "share", "index", "msg"])
+        kind = r.choice(["none", "none", "share", "index", "msg", "junk"])
         pos = r.choice(S)
         if kind == "none":
             sub = {"kind": "none", "pos": 0, "arg": 0}
@@ -95,6 +118,8 @@ def sampled(seed, k):
             sub = {"kind": "share", "pos": pos, "arg": r.choice([j for j in range(0, n + 1) if j != pos])}
         elif kind == "index":
             sub = {"kind": "index", "pos": pos, "arg": r.choice([j for j in range(1, n + 2) if j not in S])}
+        elif kind == "junk":
+            sub = {"kind": "junk", "pos": pos, "arg": r.choice([0, 1])}
         else:
             sub = {"kind": "msg", "pos": pos, "arg": 0}
         case = [{"ev": "Split", "n": n, "t": t}]
@@ -240,11 +265,13 @@ def run(tier, seed):
     enum = decorate_all(cases, seed, 2 if thorough else 1, "enum")
     spec = special(cases, seed, 3000 if thorough else 300)
     big = sampled(seed, 6000 if thorough else 500)
+    aft = after_failure(cases, seed, 1500 if thorough else 200)
     # stage 2+3
     kw = dict(key=key, chunk=500)
     vlib.conformance(o, FAMILY, "ThresholdBLSTrace", "ThresholdBLSTrace.cfg", "c08", enum, tag="enum", **kw)
     vlib.conformance(o, FAMILY, "ThresholdBLSTrace", "ThresholdBLSTrace.cfg", "c08", spec, tag="special", **kw)
     vlib.conformance(o, FAMILY, "ThresholdBLSTrace", "ThresholdBLSTrace.cfg", "c08", big, tag="sampled", **kw)
+    vlib.conformance(o, FAMILY, "ThresholdBLSTrace", "ThresholdBLSTrace.cfg", "c08", aft, tag="afterfail", **kw)
     # distinct_nontrivial: recount over the recorded traces, leaving out no-op substitutions
     keys = set()
     all_tr = []
@@ -266,7 +293,7 @@ def run(tier, seed):
 def replay(path):
     rp = json.load(open(path))
     o = vlib.Outcome(PID, "quick", 0)
-    vlib.conformance(o, FAMILY, rp["trace_module"], rp["trace_cfg"], rp["pkg"], [rp["schedule"]], tag="replay")
+    vlib.conformance(o, FAMILY, rp["trace_module"], rp["trace_cfg"], rp["pkg"], rp.get("context") or [rp["schedule"]], tag="replay")
     for p, t in o.violations:
         log("replay: " + t)
     return 1 if o.violations else 0
